@@ -804,6 +804,117 @@ pub fn rate_linearizable(o: &Outcome, s: &Scen) -> Option<(String, serde_json::V
   }
 }
 
+/// C17 (thread part): a thread keeps asking `is_closed()` on the subscription of
+/// `hot.<op>` while a producer thread emits and terminates and a worker thread
+/// runs the scheduled tasks. Once a sample returned true nothing may begin on
+/// the probe any more, and no later sample may be false.
+pub fn closed_sampling_race(opk: usize, items: usize, error: bool, seed: u64, strategy: Strategy) -> (Option<(String, String)>, BatonOutcome, &'static str) {
+  crate::vtime::reset();
+  let log = Log::new();
+  let pool = Pool::new();
+  let hot: Vec<SubjectThreads<V, E>> = vec![SubjectThreads::default()];
+  let cx = threads::Ctx { hot: hot.clone(), stash: StashT::default(), sched: pool.scheduler(), log: log.clone(), base: Instant::now() };
+  let (name, op): (&'static str, Op) = match opk % 4 {
+    0 => ("observe_on_threads", Op::ObserveOn),
+    1 => ("delay_threads", Op::Delay(0)),
+    2 => ("debounce", Op::Debounce(1)),
+    _ => ("buffer_with_time", Op::BufferWithTime(1)),
+  };
+  let chain = Chain::new(Src::Hot(0), vec![op]);
+  let u = BoxSubscriptionThreads::new(threads::build(&chain, &cx).actual_subscribe(Probe::new(1, &log)));
+  let producers_left = Arc::new(AtomicUsize::new(1));
+  let mut bodies: Vec<Box<dyn FnOnce() + Send>> = vec![];
+  {
+    let (mut h, left) = (hot[0].clone(), producers_left.clone());
+    bodies.push(Box::new(move || {
+      for i in 0..items {
+        h.next(V::I(1001 + i as i64));
+      }
+      if error {
+        h.clone().error(7)
+      } else {
+        h.clone().complete()
+      }
+      left.fetch_sub(1, Ordering::SeqCst);
+    }));
+  }
+  {
+    let log = log.clone();
+    bodies.push(Box::new(move || {
+      for _ in 0..6 {
+        let c = u.is_closed();
+        log.mark(CALL + 1, "closed_sample", c as i64);
+        conc::yield_now();
+      }
+      std::mem::forget(u);
+    }));
+  }
+  {
+    let (pool, left) = (pool.clone(), producers_left.clone());
+    bodies.push(Box::new(move || {
+      let mut spins = 0;
+      loop {
+        for (id, _) in crate::vtime::pending() {
+          crate::vtime::fire(id);
+        }
+        let ran = pool.run_one(0);
+        if !ran && left.load(Ordering::SeqCst) == 0 && pool.idle() && crate::vtime::pending_count() == 0 {
+          break;
+        }
+        spins += 1;
+        if spins > 300 {
+          break;
+        }
+        conc::yield_now();
+      }
+    }));
+  }
+  YIELD_IN_PROBE.store(true, Ordering::SeqCst);
+  let out = conc::baton_run(seed, strategy, bodies);
+  YIELD_IN_PROBE.store(false, Ordering::SeqCst);
+  if out.deadlock.is_some() || out.timed_out || out.livelock {
+    std::mem::forget(cx);
+    return (None, out, name);
+  }
+  // whatever is still scheduled runs now
+  let pool2 = pool.clone();
+  let _ = catch(move || {
+    for _ in 0..2_000 {
+      for (id, _) in crate::vtime::pending() {
+        crate::vtime::fire(id);
+      }
+      if !pool2.run_one(0) && crate::vtime::pending_count() == 0 {
+        break;
+      }
+    }
+  });
+  let evs = log.evs();
+  let mut problem = None;
+  let mut first_true: Option<u64> = None;
+  for e in &evs {
+    if let K::Mark("closed_sample", c) = e.k {
+      if c == 1 && first_true.is_none() {
+        first_true = Some(e.seq);
+      }
+      if c == 0 && first_true.is_some() {
+        problem = Some(("is_closed_went_back_to_false".to_string(), format!("is_closed() returned true at stamp {} and false at stamp {}", first_true.unwrap(), e.seq)));
+        break;
+      }
+    }
+  }
+  if problem.is_none() {
+    if let Some(t) = first_true {
+      if let Some(late) = evs.iter().find(|e| e.id == 1 && e.seq > t && matches!(e.k, K::N(_))) {
+        problem = Some(("delivery_after_is_closed".to_string(), format!("is_closed() returned true at stamp {}; {:?} was delivered at stamp {}", t, late.k, late.seq)));
+      }
+    }
+  }
+  if let (None, Some((t, p))) = (&problem, out.panics.first()) {
+    problem = Some(("panic".into(), format!("thread {} panicked: {}", t, p)));
+  }
+  (problem, out, name)
+}
+
 /// C02: nothing *begins* on a probe after its unsubscribe() returned
 pub fn after_unsub(o: &Outcome) -> Option<(String, serde_json::Value)> {
   for e in &o.evs {
